@@ -102,6 +102,9 @@ var vpUsers = map[string]vpUser{
 	"alice": {Sub: "sub-alice", Email: "alice@example.com", Groups: []string{"g1", "g2"}, Username: "alice"},
 	"bob":   {Sub: "sub-bob", Email: "bob@other.org", Groups: []string{"g3"}, Username: "bobby"},
 	"carol": {Sub: "sub-carol", Email: "carol@example.com", Groups: nil, Username: "carol"},
+	// identities whose e-mail is not an address: a user name in the e-mail claim / no e-mail claim at all
+	"dave": {Sub: "sub-dave", Email: "dave.example.com", Groups: []string{"g1"}, Username: "dave"},
+	"erin": {Sub: "erin.example.com", Email: "", Groups: []string{"g1"}, Username: "erin"},
 }
 
 type vpCode struct {
@@ -168,6 +171,7 @@ type vpIdP struct {
 	signAlg        string                               // RS256 | none | HS256pub | otherkey
 	issueRefresh   bool
 	rotate         bool
+	advertise      string // discovery: code_challenge_methods_supported  both | plain | s256 | absent
 	refreshMode    string // ok | fail | unsupported(no RT issued)
 	idTokenTTL     int    // seconds
 	idTokenOnRefresh bool
@@ -334,7 +338,15 @@ func (p *vpIdP) hDiscovery(rw http.ResponseWriter, r *http.Request) {
 		"token_endpoint":                        p.issuer() + "/token",
 		"jwks_uri":                              p.issuer() + "/keys",
 		"id_token_signing_alg_values_supported": []string{"RS256"},
-		"code_challenge_methods_supported":      []string{"S256", "plain"},
+	}
+	switch p.advertise {
+	case "", "both":
+		d["code_challenge_methods_supported"] = []string{"S256", "plain"}
+	case "plain":
+		d["code_challenge_methods_supported"] = []string{"plain"}
+	case "s256":
+		d["code_challenge_methods_supported"] = []string{"S256"}
+	case "absent":
 	}
 	if !p.noUserinfo {
 		d["userinfo_endpoint"] = p.issuer() + "/userinfo"
@@ -549,6 +561,9 @@ func (p *vpIdP) mintIDToken(user string, mut func(c map[string]interface{}), alg
 	}
 	if u.Username != "" {
 		claims["preferred_username"] = u.Username
+	}
+	if u.Email == "" {
+		delete(claims, "email")
 	}
 	if p.name == "extra" {
 		claims["aud"] = vpExtraAudience
